@@ -29,6 +29,35 @@ type srcSet struct {
 	globals map[string]bool
 	consts  map[string]bool
 	params  map[string]bool
+	// deep mode: calls of helper functions of the same package are entered (their returned
+	// values are followed, their parameters stand for the arguments of the call)
+	deep *World
+	bind map[*ssa.Parameter]ssa.Value
+	amb  map[*ssa.Parameter]bool
+}
+
+// resolve: a parameter of an entered helper stands for the argument it was called with.
+func (s *srcSet) resolve(v ssa.Value) ssa.Value {
+	for i := 0; i < 6; i++ {
+		p, ok := rootOf(v, 0).(*ssa.Parameter)
+		if !ok || s.bind == nil || s.amb[p] {
+			return v
+		}
+		a, ok := s.bind[p]
+		if !ok {
+			return v
+		}
+		v = a
+	}
+	return v
+}
+
+func newDeepSrcSet(w *World) *srcSet {
+	s := newSrcSet()
+	s.deep = w
+	s.bind = map[*ssa.Parameter]ssa.Value{}
+	s.amb = map[*ssa.Parameter]bool{}
+	return s
 }
 
 func newSrcSet() *srcSet {
@@ -48,8 +77,39 @@ func backward(v ssa.Value, s *srcSet, seen map[ssa.Value]bool) {
 	case *ssa.Global:
 		s.globals[x.Name()] = true
 	case *ssa.Parameter:
+		if s.bind != nil && !s.amb[x] {
+			if a, ok := s.bind[x]; ok {
+				backward(a, s, seen)
+				return
+			}
+		}
 		s.params[x.Name()] = true
 	case *ssa.Call:
+		if s.deep != nil && !x.Call.IsInvoke() {
+			if callee := x.Call.StaticCallee(); callee != nil && callee.Blocks != nil && s.deep.IsProduct(pkgOf(callee)) && x.Parent() != nil && pkgOf(callee) == pkgOf(x.Parent()) && callee != x.Parent() && callee.Signature.Recv() == nil && len(callee.Params) > 0 {
+				// helper of the same package: its parameters stand for the arguments, its returned values are followed
+				for i, p := range callee.Params {
+					if i >= len(x.Call.Args) {
+						break
+					}
+					if old, had := s.bind[p]; had && old != x.Call.Args[i] {
+						s.amb[p] = true
+					}
+					s.bind[p] = x.Call.Args[i]
+				}
+				for _, b := range callee.Blocks {
+					if len(b.Instrs) == 0 {
+						continue
+					}
+					if ret, ok := b.Instrs[len(b.Instrs)-1].(*ssa.Return); ok {
+						for _, rv := range ret.Results {
+							backward(rv, s, seen)
+						}
+					}
+				}
+				return
+			}
+		}
 		name := "dyn"
 		if x.Call.IsInvoke() {
 			name = "invoke:" + x.Call.Method.Name()
@@ -212,7 +272,7 @@ func runC19(w *World) *Result {
 			r.Bad("R-C19-write", "write:data", w.Pos(m.call.Pos()), fmt.Sprintf("the written bytes are not exactly the Transpile result (depends on %v)", dn))
 		}
 		// path argument
-		ps := newSrcSet()
+		ps := newDeepSrcSet(w)
 		backward(m.call.Call.Args[0], ps, map[ssa.Value]bool{})
 		var problems []string
 		need := func(name string) []*ssa.Call {
@@ -227,16 +287,16 @@ func runC19(w *World) *Result {
 		extCalls := ps.calls["invoke:Extension"]
 		if len(extCalls) == 0 {
 			problems = append(problems, "target extension not taken from the converter")
-		} else if !sameRoot(extCalls[0].Call.Value, tr.call.Call.Args[2]) && !sameRoot(extCalls[0].Call.Value, tr.call.Call.Args[len(tr.call.Call.Args)-1]) {
+		} else if !sameRoot(ps.resolve(extCalls[0].Call.Value), tr.call.Call.Args[2]) && !sameRoot(ps.resolve(extCalls[0].Call.Value), tr.call.Call.Args[len(tr.call.Call.Args)-1]) {
 			problems = append(problems, "Extension() is asked of a different converter than the one that produced the text")
 		}
-		if len(bases) > 0 && len(exts) > 0 && !sameRoot(bases[0].Call.Args[0], exts[0].Call.Args[0]) {
+		if len(bases) > 0 && len(exts) > 0 && !sameRoot(ps.resolve(bases[0].Call.Args[0]), ps.resolve(exts[0].Call.Args[0])) {
 			problems = append(problems, "the extension that is cut off is not the extension of the path whose base name is used")
 		}
 		if !ps.fields["out"] && !hasFieldLike(ps.fields, "out") {
 			problems = append(problems, "output directory option not used")
 		}
-		if len(bases) > 0 && !sameRoot(bases[0].Call.Args[0], tr.call.Call.Args[1]) {
+		if len(bases) > 0 && !sameRoot(ps.resolve(bases[0].Call.Args[0]), tr.call.Call.Args[1]) {
 			problems = append(problems, "the base name is not taken from the path that was transpiled")
 		}
 		// no slicing by a constant, trimming of other suffixes etc. beyond len arithmetic
@@ -282,6 +342,12 @@ func runC19(w *World) *Result {
 			for _, cv := range calls {
 				if cc, ok := cv.(*ssa.Call); ok && calleeName(cc) == "os.SameFile" {
 					same = true
+				}
+				// a helper of the command that answers true only where os.SameFile did
+				if cc, ok := cv.(*ssa.Call); ok {
+					if h := cc.Call.StaticCallee(); h != nil && h.Blocks != nil && pkgOf(h) == mainPkg && trueOnlyFrom(h, "os.SameFile") {
+						same = true
+					}
 				}
 			}
 			if ph, ok := cnd.(*ssa.Phi); ok {
@@ -473,6 +539,46 @@ func hasFieldLike(m map[string]bool, s string) bool {
 }
 
 // sameRoot: two values denote the same program variable (through loads, phis of one origin, range elements).
+// trueOnlyFrom: every value the bool function returns is the constant false or the result
+// of a call of the named function (possibly merged): it answers true only where that call did.
+func trueOnlyFrom(fn *ssa.Function, callee string) bool {
+	found := false
+	var ok func(v ssa.Value, d int) bool
+	ok = func(v ssa.Value, d int) bool {
+		if d > 5 {
+			return false
+		}
+		switch x := v.(type) {
+		case *ssa.Const:
+			return x.Value != nil && isBool(x.Type()) && x.Value.ExactString() == "false"
+		case *ssa.Call:
+			if calleeName(x) == callee {
+				found = true
+				return true
+			}
+		case *ssa.Phi:
+			for _, e := range x.Edges {
+				if !ok(e, d+1) {
+					return false
+				}
+			}
+			return true
+		}
+		return false
+	}
+	for _, b := range fn.Blocks {
+		if len(b.Instrs) == 0 {
+			continue
+		}
+		if ret, isRet := b.Instrs[len(b.Instrs)-1].(*ssa.Return); isRet {
+			if len(ret.Results) != 1 || !ok(ret.Results[0], 0) {
+				return false
+			}
+		}
+	}
+	return found
+}
+
 func sameRoot(a, b ssa.Value) bool {
 	ra, rb := rootOf(a, 0), rootOf(b, 0)
 	return ra == rb && ra != nil
